@@ -59,7 +59,9 @@ def comm_scen(sid, variants, xt, policy, cfgname):
         aid = c.n("c%d" % i)
         c.add("act", aid, "comm", float(st), c.n(src), c.n(dst), w * BW)
         acts.append({"id": aid, "start": F(st), "cost": F(w * BW), "penalty": F(1), "bound": F(BW),
-                     "uses": {c.n(l): (XTW if xt else F(1)) for l in links}})
+                     # SHARED: the flow and its 5% reverse traffic add up on the link; FATPIPE: nothing adds up on such a
+                     # link (every flow, the reverse one included, is limited separately), so the weight stays 1
+                     "uses": {c.n(l): (XTW if (xt and policy == "SHARED") else F(1)) for l in links}})
     c.meta = {"kind": "comm", "acts": acts, "res": {c.n(l): {"cap": F(BW), "fat": policy == "FATPIPE"} for l in ("l1", "l2")},
               "label": "comm %s [%s]" % (" ".join("%gx@%g:%s" % v for v in variants), cfgname)}
     return c
@@ -166,7 +168,10 @@ def bounds_for(ctx):
             B.append(("I/Os: multisets of %d" % k, g_io(k)))
     else:
         for k in (1, 2, 3, 4):
-            B.append(("execs: multisets of %d, cores 1,2,4 (Lazy,Full,TI)" % k, g_exec(k, (1, 2, 4), ("Lazy", "Full", "TI"))))
+            if k < 4:
+                B.append(("execs: multisets of %d, cores 1,2,4 (Lazy,Full,TI)" % k, g_exec(k, (1, 2, 4), ("Lazy", "Full", "TI"))))
+            else:
+                B.append(("execs: multisets of 4, cores 1,2 (Lazy,Full)", g_exec(4, (1, 2), ("Lazy", "Full"))))
             B.append(("comms: multisets of %d (4 configs; SHARED,FATPIPE)" % k,
                       g_comm(k, ("xt0/Lazy", "xt1/Full", "xt1/Lazy", "xt0/Full") if k < 4 else ("xt0/Lazy", "xt1/Full"),
                              ("SHARED", "FATPIPE") if k < 4 else ("SHARED",))))
